@@ -108,7 +108,7 @@ impl World {
                     if self.swapped[i] { p.nodes[i].alt.clone().unwrap() } else { p.nodes[i].ex.clone() };
                 Some(Expect::Unit)
             }
-            Op::LruCap(_) | Op::LruTrig | Op::Cancel | Op::RoundTrip | Op::Prefill(_) | Op::Reclone => Some(Expect::Unit),
+            Op::LruCap(_) | Op::MkLruCap(_) | Op::LruTrig | Op::Cancel | Op::RoundTrip | Op::Prefill(_) | Op::Reclone => Some(Expect::Unit),
             _ => None,
         }
     }
